@@ -83,7 +83,13 @@ class Custom(Exception):
         self.payload = payload
 
 
-EXC = {'ValueError': ValueError, 'RuntimeError': RuntimeError, 'Custom': Custom, 'TimeoutError': TimeoutError,
+class Falsy(Exception):
+    """an exception object whose truth value is False (a 'collection of failures' with no entries): still an exception"""
+    def __len__(self):
+        return 0
+
+
+EXC = {'Falsy': Falsy, 'ValueError': ValueError, 'RuntimeError': RuntimeError, 'Custom': Custom, 'TimeoutError': TimeoutError,
        'KeyError': KeyError, 'OSError': OSError, 'CancelledError': asyncio.CancelledError}
 
 
